@@ -63,6 +63,11 @@ func (h *Harness) devBound(tier string) int {
 }
 
 func (h *Harness) budget(tier string) time.Duration {
+	if s := os.Getenv("VERIF_BUDGET_S"); s != "" {
+		if k, err := strconv.Atoi(s); err == nil && k > 0 {
+			return time.Duration(k) * time.Second
+		}
+	}
 	if h.Budget != nil {
 		if d, ok := h.Budget[tier]; ok {
 			return d
@@ -118,13 +123,28 @@ func Drive(chk *Check, tier string, root string, variant string) int {
 		if h.OnlyTier != "" && h.OnlyTier != tier {
 			continue
 		}
-		if h.Variant != variant {
-			continue
-		}
 		hs := time.Now()
 		var res *Result
 		var nw int
-		if h.InProc != nil {
+		if h.InProc != nil && h.Variant != variant {
+			out := filepath.Join(work, h.Name+".inproc.json")
+			cmd := exec.Command(ExeFor(h.Variant), "inproc", chk.ID, h.Name, tier, out)
+			cmd.Stderr = os.Stderr
+			cmd.Env = append(os.Environ(), "TMPDIR="+work)
+			if err := cmd.Run(); err != nil {
+				fmt.Fprintf(os.Stderr, "harness %s (variant %s): %v\n", h.Name, h.Variant, err)
+				infra = true
+				continue
+			}
+			b, err := os.ReadFile(out)
+			res = NewResult()
+			if err != nil || json.Unmarshal(b, res) != nil {
+				fmt.Fprintf(os.Stderr, "harness %s: no result\n", h.Name)
+				infra = true
+				continue
+			}
+			nw = 1
+		} else if h.InProc != nil {
 			r := &Run{Tier: tier, Deadline: time.Now().Add(h.budget(tier)), Res: NewResult(), Property: chk.ID, Harness: h.Name, distinct: map[uint64]struct{}{}}
 			r.Res.Done = true
 			func() {
@@ -181,7 +201,6 @@ func Drive(chk *Check, tier string, root string, variant string) int {
 	exit := 0
 	nvio := 0
 	printedKnown := map[string]bool{}
-	self, _ := os.Executable()
 	sort.SliceStable(allVio, func(i, j int) bool { return len(allVio[i].Choices) < len(allVio[j].Choices) })
 	reported := map[string]int{}
 	seenPath := map[string]bool{}
@@ -216,7 +235,7 @@ func Drive(chk *Check, tier string, root string, variant string) int {
 			ok = 3
 		} else {
 			for i := 0; i < 3; i++ {
-				cmd := exec.Command(self, "replay", path)
+				cmd := exec.Command(ExeFor(variantOf(chk, v.Harness)), "replay", path)
 				cmd.Env = append(os.Environ(), "VERIF_QUIET=1")
 				if err := cmd.Run(); err != nil {
 					if ee, isExit := err.(*exec.ExitError); isExit && ee.ExitCode() == 1 {
@@ -256,7 +275,6 @@ func Drive(chk *Check, tier string, root string, variant string) int {
 		"distinct_outcomes":   distinctOutcomes,
 		"violation_counts":    vioCounts,
 		"known_findings":      matchedKnown,
-		"variant":             variant,
 	}
 	if chk.Level == "model_checking" {
 		st, tr := total.Counters["states"], total.Counters["transitions"]
@@ -278,15 +296,21 @@ func Drive(chk *Check, tier string, root string, variant string) int {
 	}
 	os.MkdirAll(filepath.Join(root, "evidence"), 0755)
 	evPath := filepath.Join(root, "evidence", chk.ID+".json")
-	if variant != "" {
-		evPath = filepath.Join(root, ".work", "evidence-"+chk.ID+"-"+variant+".json")
-	}
 	b, _ := json.MarshalIndent(ev, "", " ")
 	os.WriteFile(evPath, append(b, '\n'), 0644)
 	if exit == 0 && infra {
 		return 2
 	}
 	return exit
+}
+
+func variantOf(chk *Check, harness string) string {
+	for _, h := range chk.Harnesses {
+		if h.Name == harness {
+			return h.Variant
+		}
+	}
+	return ""
 }
 
 func oneLine(s string) string {
@@ -332,10 +356,7 @@ type wstate struct {
 }
 
 func runWorkers(chk *Check, h *Harness, tier, work string) (*Result, int, error) {
-	self, err := os.Executable()
-	if err != nil {
-		return nil, 0, err
-	}
+	self := ExeFor(h.Variant)
 	n := h.Workers
 	if n <= 0 {
 		n = 16
@@ -534,6 +555,26 @@ func firstLines(s string, n int) string {
 		lines = lines[:n]
 	}
 	return strings.Join(lines, " | ")
+}
+
+// ExeFor returns the vcheck binary built with the given overlay variant.
+func ExeFor(variant string) string {
+	self, _ := os.Executable()
+	dir := filepath.Dir(self)
+	if variant == "" || variant == "plain" {
+		return filepath.Join(dir, "vcheck")
+	}
+	return filepath.Join(dir, "vcheck-"+variant)
+}
+
+// RunInProc runs an in-process harness and writes its result (used for variant binaries).
+func RunInProc(chk *Check, h *Harness, tier, out string) {
+	r := &Run{Tier: tier, Deadline: time.Now().Add(h.budget(tier)), Res: NewResult(), Property: chk.ID, Harness: h.Name, distinct: map[uint64]struct{}{}}
+	r.Res.Done = true
+	h.InProc(r)
+	r.Res.Distinct = int64(len(r.distinct))
+	b, _ := json.Marshal(r.Res)
+	os.WriteFile(out, b, 0644)
 }
 
 // ---- in-process run helpers ----
